@@ -1,6 +1,6 @@
 (* C11 — clients answer each connection's own challenge first, then resubscribe. *)
 From Coq Require Import ZArith List Bool.
-From HP Require Import Bytes Wire AioSession AioFacts TwSession LegacyClient LegacyFacts.
+From HP Require Import Bytes Wire AioSession AioFacts TwSession LegacyClient LegacyFacts BlkSession BlkFacts.
 Import ListNotations.
 
 (* asyncio ClientSession, every list of events (connect outcomes, data chunks of any shape, losses, application
@@ -34,7 +34,25 @@ Theorem C11_legacy_resubscribes : forall subs tr pre k r mid m post,
   filter is_send mid = map (LSentSub k) subs.
 Proof. exact resubscribes_before_delivering. Qed.
 
+(* blocking thread session (hpfeeds/blocking/session.py).  The handshake clause is FALSE for it: when_connected is set at
+   TCP connect, so an application call made then puts its frame into the outbox before the OP_INFO has arrived and the
+   broker sees it before OP_AUTH (known finding F6).  [es] is a concrete history, [c] the resulting connection: no
+   OP_INFO decoded, yet its outbox holds the SUBSCRIBE *)
+Theorem C11_blocking_session_refuted : forall ident secret, (zlen ident <= 255)%Z ->
+  exists es c fr, b_cur (brun ident secret es) = Some c /\ b_nonce c = None /\ b_out c = [fr] /\
+                  msgsubscribe ident [Byte.x63] = Some fr.
+Proof. exact blk_handshake_refuted. Qed.
+
+(* what does hold, for every history: on every connection (current and past) on which the application did not write
+   before the OP_INFO, nothing is put into the outbox before an OP_INFO is decoded and the oldest frame is the OP_AUTH
+   for that nonce with the own ident and secret *)
+Theorem C11_blocking_session_partial : forall ident secret, (zlen ident <= 255)%Z -> forall es,
+  BI ident secret (brun ident secret es).
+Proof. exact blk_handshake_partial. Qed.
+
 Print Assumptions C11_asyncio.
+Print Assumptions C11_blocking_session_refuted.
+Print Assumptions C11_blocking_session_partial.
 Print Assumptions C11_twisted.
 Print Assumptions C11_legacy_accepted.
 Print Assumptions C11_legacy_first_frame.
